@@ -223,6 +223,30 @@ theorem opt_apply_homomorphism (f : α → β → K σ δ) (x : α) (y : β) :
     Opt.apply2 f (Opt.make x) (Opt.make y) = some <$> f x y := by
   simp [Opt.apply2_eq, Opt.make]
 
+/-- applicative identity -/
+theorem opt_apply_identity (o : Option α) : Opt.apply1 (fun x => (pure x : K σ α)) o = pure o := by
+  cases o <;> simp [Opt.apply1_eq]
+
+/-- applicative composition (liftA2 form) for effect-free functions: nesting two binary `apply`s is one ternary `apply` -/
+theorem opt_apply_assoc_pure (f : α → β → γ) (g : γ → δ → ψ) (a : Option α) (b : Option β) (c : Option δ) :
+    (Opt.apply2 (fun x y => (pure (f x y) : K σ γ)) a b >>= fun r => Opt.apply2 (fun w z => (pure (g w z) : K σ ψ)) r c)
+      = Opt.apply3 (fun x y z => pure (g (f x y) z)) a b c := by
+  cases a <;> cases b <;> cases c <;> simp [Opt.apply2_eq, Opt.apply3_eq]
+
+/-- with effects the same holds as soon as the outer optional is set (otherwise the inner function has already run) -/
+theorem opt_apply_assoc (f : α → β → K σ γ) (g : γ → δ → K σ ψ) (a : Option α) (b : Option β) (z : δ) :
+    (Opt.apply2 f a b >>= fun r => Opt.apply2 g r (some z))
+      = Opt.apply3 (fun x y z => f x y >>= fun w => g w z) a b (some z) := by
+  cases a <;> cases b <;> simp [Opt.apply2_eq, Opt.apply3_eq]
+
+theorem either_apply_identity (e : Either φ α) : Either.apply1 (fun x => (pure x : K σ α)) e = pure e := by
+  cases e <;> simp [Either.apply1_eq]
+
+theorem either_apply_assoc_pure (f : α → β → γ) (g : γ → δ → ψ) (a : Either φ α) (b : Either φ β) (c : Either φ δ) :
+    (Either.apply2 (fun x y => (pure (f x y) : K σ γ)) a b >>= fun r => Either.apply2 (fun w z => (pure (g w z) : K σ ψ)) r c)
+      = Either.apply3 (fun x y z => pure (g (f x y) z)) a b c := by
+  cases a <;> cases b <;> cases c <;> simp [Either.apply2_eq, Either.apply3_eq]
+
 /-- effect-free versions of the documented results -/
 theorem opt_filter_pure (o : Option α) (p : α → Bool) :
     Opt.filter o (fun x => (pure (p x) : K σ Bool)) = pure (o.filter p) := by
